@@ -62,9 +62,9 @@ def classify(pid, unit, res):
             out["reasons"].append("vacuity witness not violated (end of harness unreachable?)")
         return out
     for (name, desc, loc) in res.failed:
-        m = re.match(r"KV-(C\d+)", desc)
+        m = re.match(r"KV-((?:C\d+\+?)+)", desc)
         if m:
-            if m.group(1) == pid:
+            if pid in m.group(1).split("+"):
                 out["candidates"].append(dict(kind="assertion", desc=desc, loc=loc))
             else:
                 out["other_props"].append(desc)
@@ -86,7 +86,7 @@ def classify(pid, unit, res):
     if res.undetermined and not out["candidates"]:
         # checks left undetermined by an earlier failure (e.g. unwinding): not a pass
         if out["verdict"] == "held" and res.status != "success":
-            und = [d for (_n, d, _l) in res.undetermined if ("KV-" + pid) in d]
+            und = [d for (_n, d, _l) in res.undetermined if re.match(r"KV-(?:C\d+\+)*%s\b" % pid, d)]
             if und and not out["other_props"]:
                 out["verdict"] = "inconclusive"
                 out["reasons"].append("%d checks undetermined" % len(res.undetermined))
@@ -218,7 +218,7 @@ def write_evidence(pid, tier, seed, spec, records, violations, known_hits, incon
             s = dict(engine="kani/cbmc", harness=u.name, bounds=u.bounds, functions=u.functions,
                      verdict=cls["verdict"], notes=u.notes)
             if r is not None:
-                tagged = [c for c in r.checks if ("KV-" + pid) in c[2]]
+                tagged = [c for c in r.checks if re.match(r"KV-(?:C\d+\+)*%s\b" % pid, c[2])]
                 ok_tagged = [c for c in tagged if c[1] == "SUCCESS"]
                 s.update(status=r.status, checks_total=r.total, checks_failed=len(r.failed),
                          property_assertions=len(tagged), property_assertions_proved=len(ok_tagged),
